@@ -52,6 +52,13 @@ def isThrow : Res α → Bool | .throw _ => true | _ => false
 @[simp] theorem bind_oob (w : String) (f : α → Res β) : ((Res.oob w : Res α) >>= f) = .oob w := rfl
 @[simp] theorem pure_eq (a : α) : (pure a : Res α) = .ok a := rfl
 
+theorem bind_eq_ok {α β : Type} {r : Res α} {f : α → Res β} {b : β} :
+    (r >>= f) = .ok b ↔ ∃ a, r = .ok a ∧ f a = .ok b := by
+  cases r with
+  | ok a => exact ⟨fun h => ⟨a, rfl, h⟩, fun ⟨a', h1, h2⟩ => by cases h1; exact h2⟩
+  | throw e => exact ⟨fun h => (by cases h), fun ⟨a', h1, _⟩ => (by cases h1)⟩
+  | oob w => exact ⟨fun h => (by cases h), fun ⟨a', h1, _⟩ => (by cases h1)⟩
+
 end Res
 
 /-- bytes are naturals below 256 (the bound is carried by hypotheses where needed) -/
